@@ -57,6 +57,119 @@ pub fn describe_lef(l: &LefLibrary) -> String {
         l.macros.iter().filter(|m| m.class.is_some()).count(),
     )
 }
+/// Which constructs a reader-image library contains (reach probes)
+pub fn lef_features(l: &LefLibrary) -> Vec<&'static str> {
+    use lef21::*;
+    let mut f: Vec<&'static str> = Vec::new();
+    let mut add = |c: bool, n: &'static str| {
+        if c && !f.contains(&n) {
+            f.push(n);
+        }
+    };
+    add(l.version.is_some(), "VERSION");
+    add(l.names_case_sensitive.is_some(), "NAMESCASESENSITIVE");
+    add(l.no_wire_extension_at_pin.is_some(), "NOWIREEXTENSIONATPIN");
+    add(l.bus_bit_chars.is_some(), "BUSBITCHARS");
+    add(l.divider_char.is_some(), "DIVIDERCHAR");
+    add(l.units.is_some(), "UNITS");
+    add(l.manufacturing_grid.is_some(), "MANUFACTURINGGRID");
+    add(l.use_min_spacing.is_some(), "USEMINSPACING");
+    add(l.clearance_measure.is_some(), "CLEARANCEMEASURE");
+    add(l.fixed_mask, "FIXEDMASK(library)");
+    add(!l.property_definitions.is_empty(), "PROPERTYDEFINITIONS");
+    add(!l.extensions.is_empty(), "BEGINEXT");
+    add(!l.sites.is_empty(), "SITE");
+    add(l.sites.iter().any(|s| s.symmetry.is_some()), "SITE.SYMMETRY");
+    for v in &l.vias {
+        match &v.data {
+            LefViaDefData::Fixed(d) => {
+                add(true, "VIA(fixed)");
+                add(d.resistance_ohms.is_some(), "VIA.RESISTANCE");
+                add(d.layers.iter().any(|g| g.shapes.iter().any(|s| matches!(s, LefViaShape::Polygon(..)))), "VIA.POLYGON");
+                add(d.layers.iter().any(|g| g.shapes.iter().any(|s| matches!(s, LefViaShape::Rect(Some(_), ..) | LefViaShape::Polygon(Some(_), ..)))), "VIA.MASK");
+            }
+            LefViaDefData::Generated(d) => {
+                add(true, "VIA(generated)");
+                add(d.rowcol.is_some(), "VIA.ROWCOL");
+                add(d.origin.is_some(), "VIA.ORIGIN");
+                add(d.offset.is_some(), "VIA.OFFSET");
+            }
+        }
+        add(v.default, "VIA.DEFAULT");
+    }
+    for m in &l.macros {
+        add(true, "MACRO");
+        match &m.class {
+            Some(LefMacroClass::Cover { .. }) => add(true, "CLASS COVER"),
+            Some(LefMacroClass::Ring) => add(true, "CLASS RING"),
+            Some(LefMacroClass::Block { .. }) => add(true, "CLASS BLOCK"),
+            Some(LefMacroClass::Pad { .. }) => add(true, "CLASS PAD"),
+            Some(LefMacroClass::Core { .. }) => add(true, "CLASS CORE"),
+            Some(LefMacroClass::EndCap { .. }) => add(true, "CLASS ENDCAP"),
+            None => {}
+        }
+        add(m.foreign.is_some(), "FOREIGN");
+        add(m.foreign.as_ref().map(|f| f.orient.is_some()).unwrap_or(false), "FOREIGN.orient");
+        add(m.origin.is_some(), "ORIGIN");
+        add(m.size.is_some(), "SIZE");
+        add(m.symmetry.is_some(), "SYMMETRY");
+        add(m.site.is_some(), "MACRO.SITE");
+        add(m.source.is_some(), "SOURCE");
+        add(m.eeq.is_some(), "EEQ");
+        add(m.fixed_mask, "FIXEDMASK(macro)");
+        add(m.density.is_some(), "DENSITY");
+        add(!m.obs.is_empty(), "OBS");
+        for p in &m.pins {
+            add(true, "PIN");
+            add(p.direction.is_some(), "PIN.DIRECTION");
+            add(matches!(p.direction, Some(LefPinDirection::Output { tristate: true })), "PIN.DIRECTION OUTPUT TRISTATE");
+            add(p.use_.is_some(), "PIN.USE");
+            add(p.shape.is_some(), "PIN.SHAPE");
+            add(p.antenna_model.is_some(), "PIN.ANTENNAMODEL");
+            add(!p.antenna_attrs.is_empty(), "PIN.ANTENNA*");
+            add(p.antenna_attrs.iter().any(|a| a.layer.is_some()), "PIN.ANTENNA* LAYER");
+            add(p.taper_rule.is_some(), "PIN.TAPERRULE");
+            add(p.must_join.is_some(), "PIN.MUSTJOIN");
+            add(p.supply_sensitivity.is_some(), "PIN.SUPPLYSENSITIVITY");
+            add(p.ground_sensitivity.is_some(), "PIN.GROUNDSENSITIVITY");
+            add(p.net_expr.is_some(), "PIN.NETEXPR");
+            for port in &p.ports {
+                add(true, "PORT");
+                add(port.class.is_some(), "PORT.CLASS");
+                for g in &port.layers {
+                    add(true, "LAYER geometries");
+                    add(g.except_pg_net.is_some(), "LAYER.EXCEPTPGNET");
+                    add(matches!(g.spacing, Some(LefLayerSpacing::Spacing(_))), "LAYER.SPACING");
+                    add(matches!(g.spacing, Some(LefLayerSpacing::DesignRuleWidth(_))), "LAYER.DESIGNRULEWIDTH");
+                    add(g.width.is_some(), "LAYER.WIDTH");
+                    add(!g.vias.is_empty(), "geometry VIA");
+                    for ge in &g.geometries {
+                        let (sh, it) = match ge {
+                            LefGeometry::Shape(s) => (s, false),
+                            LefGeometry::Iterate { shape, .. } => (shape, true),
+                        };
+                        add(it, "ITERATE");
+                        match sh {
+                            LefShape::Rect(m, ..) => {
+                                add(true, "RECT");
+                                add(m.is_some(), "MASK");
+                            }
+                            LefShape::Polygon(m, ..) => {
+                                add(true, "POLYGON");
+                                add(m.is_some(), "MASK");
+                            }
+                            LefShape::Path(m, ..) => {
+                                add(true, "PATH");
+                                add(m.is_some(), "MASK");
+                            }
+                        }
+                    }
+                }
+            }
+        }
+    }
+    f
+}
 pub fn lef_artefact(l: &LefLibrary) -> Value {
     match serde_json::to_string(l) {
         Ok(s) if s.len() <= 20_000 => serde_json::from_str(&s).unwrap_or(Value::Null),
@@ -111,6 +224,9 @@ impl Check for C05 {
             Ok(Ok(l)) => l,
         };
         out.probes.hit("reader_image_libraries");
+        for f in lef_features(&lib) {
+            out.probes.hit(&format!("has:{}", f));
+        }
         let sd = fnv64(describe_lef(&lib).as_bytes());
         let nonempty = !lib.macros.is_empty() || !lib.sites.is_empty() || !lib.vias.is_empty();
         let art = |more: Value| json!({"source_text": truncate(&text, 6000), "library": lef_artefact(&lib), "more": more});
